@@ -2644,8 +2644,11 @@ class Huber(Functional):
             tmp = norm.ufuncs.square()
             tmp *= 1 / (2 * self.gamma)
 
-            index = norm.ufuncs.greater_equal(self.gamma)
-            tmp[index] = norm[index] - self.gamma / 2
+            # Index plain arrays: boolean-mask indexing of elements does not
+            # work on array-weighted spaces
+            norm_arr = norm.asarray()
+            index = norm_arr >= self.gamma
+            tmp[index] = norm_arr[index] - self.gamma / 2
         else:
             tmp = norm
 
@@ -2732,12 +2735,15 @@ class Huber(Functional):
 
                 grad = x / functional.gamma
 
-                index = norm.ufuncs.greater_equal(functional.gamma)
+                # Index plain arrays: boolean-mask indexing of elements does
+                # not work on array-weighted spaces
+                norm_arr = norm.asarray()
+                index = norm_arr >= functional.gamma
                 if isinstance(self.domain, ProductSpace):
                     for xi, gi in zip(x, grad):
-                        gi[index] = xi[index] / norm[index]
+                        gi[index] = xi.asarray()[index] / norm_arr[index]
                 else:
-                    grad[index] = x[index] / norm[index]
+                    grad[index] = x.asarray()[index] / norm_arr[index]
 
                 return grad
 
